@@ -59,7 +59,7 @@ def settle_spec(so):
             settle_plain(so.order.side, so.size_matched, so.average_price_matched, so.order.runner_status, ndh(so.order))))
 
 
-@contract("flumine/simulation/simulatedorder.py::SimulatedOrder.profit", tags=["C08"])
+@contract("flumine/simulation/simulatedorder.py::SimulatedOrder.profit", tags=["C08-in-F"])
 def _(self) -> REAL:
     requires("simulated_order_link", self.order._simulated and self.order.simulated == self)
     requires("abstract_property_link", self.order.average_price_matched == self.average_price_matched)  # see BetfairOrder.average_price_matched below
@@ -70,7 +70,7 @@ def _(self) -> REAL:
     ensures("settlement_rule", result == settle_spec(self))
 
 
-@lemma("settlement_opposite_sides", tags=["C08"])
+@lemma("settlement_opposite_sides", tags=["C08-in-F"])
 def _(m: REAL, a: REAL, n: INT, d: REAL, status: Opt(ATOM), line_result: Opt(REAL)):
     requires(m >= 0 and n >= 1 and d != 0 and is_int(m * 100))  # matched sizes are on the penny grid (D1; wap rounds to 2dp)
     ensures("plain_back_is_minus_lay", settle_plain("BACK", m, a, status, n) == -settle_plain("LAY", m, a, status, n))
@@ -88,7 +88,7 @@ def client_view(market, client):
     return market.blotter._client_orders[client]
 
 
-@contract("flumine/markets/market.py::Market.cleared", tags=["C08"])
+@contract("flumine/markets/market.py::Market.cleared", tags=["C08-in-F"])
 def _(self, client: Ref("BaseClient")) -> Ref("ClearedMarket"):
     requires("commission_rate", client.commission_base >= 0)
     modifies_map(self.blotter._client_orders)  # a defaultdict: looking up an unknown client inserts an empty list
@@ -103,13 +103,13 @@ def _(self, client: Ref("BaseClient")) -> Ref("ClearedMarket"):
 
 # the abstract properties of a simulated order are the simulator's figures (link between the abstract fields of
 # a_schema.py and the property bodies, checked on the bodies themselves)
-@contract("flumine/order/order.py::BetfairOrder.average_price_matched", tags=["C08", "C16"])
+@contract("flumine/order/order.py::BetfairOrder.average_price_matched", tags=["C08-in-F", "C16"])
 def _(self) -> REAL:
     requires("simulated", self._simulated)
     ensures("is_the_simulators_figure", result == self.simulated.average_price_matched)
 
 
-@contract("flumine/order/order.py::BetfairOrder.size_matched", tags=["C08", "C16"])
+@contract("flumine/order/order.py::BetfairOrder.size_matched", tags=["C08-in-F", "C16"])
 def _(self) -> REAL:
     requires("simulated", self._simulated)
     ensures("is_the_simulators_figure", result == self.simulated.size_matched)
